@@ -220,7 +220,7 @@ class Sched:
             self.internal = e
             self._abort('internal', repr(e))
 
-    def op(self, label: str, guard, action, visible: bool):
+    def op(self, label: str, guard, action, visible: bool, note=None):
         me = self.current
         if self.aborting:
             raise Abort()
@@ -234,7 +234,7 @@ class Sched:
         if inj is not None:
             me.nops += 1
             if me.oplog is not None:
-                me.oplog.append((label, 'INJECTED ' + type(inj).__name__))
+                me.oplog.append((label, 'INJECTED ' + type(inj).__name__, note))
             raise inj
         me.pending = Op(label, guard, action, visible)
         nxt = self._pick()
@@ -253,7 +253,7 @@ class Sched:
         me.nops += 1
         me.hist = hash((me.hist, label, _h(res)))
         if me.oplog is not None:
-            me.oplog.append((label, _h(res)))
+            me.oplog.append((label, _h(res), note))
         return res
 
     def _handoff(self, me: VT):
@@ -750,9 +750,9 @@ class Queue:
             self.q.append(item)
             self.unfinished += 1
         if self.maxsize > 0 and block and timeout is None:
-            self.s.op(self.lbl + '.put', lambda: len(self.q) < self.maxsize, act, True)
+            self.s.op(self.lbl + '.put', lambda: len(self.q) < self.maxsize, act, True, note=_h(item))
         else:
-            self.s.op(self.lbl + '.put', _true, act, self.shared or self.maxsize > 0)
+            self.s.op(self.lbl + '.put', _true, act, self.shared or self.maxsize > 0, note=_h(item))
 
     def put_nowait(self, item):
         self.put(item, block=False)
